@@ -216,6 +216,42 @@ def check_events(rep, ix):
                found=_n(inner.test) if inner is not None else 'no guard', required='seekLr directly under `ty == EVENT_SEEK_LR`', node=seeks[0], module=m)
     ok = f'{fl}.readLrBytes(LogiRec.LR_HEADER_LENGTH)' in acts.get('EVENT_SEEK_LR', [])
     rep.ob('R-C06-LOCAL', site, 'after a seek the logical record header is consumed and its type checked', ok and any('dataType' in _n(n) for n in walk_no_nested(lp) if isinstance(n, ast.If)), node=lp, module=m)
+    # implied X: an extrapolate event arrives in two situations that carry the same tuple (kind, frames, frame slot, None, None):
+    # (a) at the start of a record, after the record's own X has been read into the slot of the first selected frame - the base
+    # is that slot; (b) between two selected frames of one record - the base is the previous slot.  A base chosen from the
+    # event tuple alone is therefore wrong for one of them: the choice has to read state set when the record was entered.
+    node = lp.body[0]
+    xbranch = None
+    other_stores = set()
+    while isinstance(node, ast.If):
+        k = _n(node.test.comparators[0]) if isinstance(node.test, ast.Compare) else '?'
+        if k == 'EVENT_EXTRAPOLATE':
+            xbranch = node
+        else:
+            for st in node.body:
+                for n in ast.walk(st):
+                    if isinstance(n, ast.Name) and isinstance(n.ctx, ast.Store):
+                        other_stores.add(n.id)
+                    if isinstance(n, ast.Attribute) and isinstance(n.ctx, ast.Store):
+                        other_stores.add(_n(n))
+        node = node.orelse[0] if len(node.orelse) == 1 and isinstance(node.orelse[0], ast.If) else None
+    if xbranch is not None:
+        base_calls = [c for st in xbranch.body for c in common.calls_in(st) if isinstance(c.func, ast.Attribute) and c.func.attr == 'xAxisValue']
+        rep.ob('R-C06-XBASE', site, 'the extrapolation reads its base X from the frame set', bool(base_calls), found=str(len(base_calls)), node=xbranch, module=m)
+        tuple_names = {e.id for e in lp.target.elts}
+        reads = set()
+        for st in xbranch.body:
+            for n in ast.walk(st):
+                if isinstance(n, ast.If):
+                    reads |= {x.id for x in ast.walk(n.test) if isinstance(x, ast.Name)} | {_n(x) for x in ast.walk(n.test) if isinstance(x, ast.Attribute)}
+        for c in base_calls:
+            for a in c.args:
+                reads |= {x.id for x in ast.walk(a) if isinstance(x, ast.Name)} | {_n(x) for x in ast.walk(a) if isinstance(x, ast.Attribute)}
+        state = sorted(r for r in reads if r in other_stores)
+        ok = bool(base_calls) and bool(state)
+        rep.ob('R-C06-XBASE', site, 'the base slot of an X extrapolation distinguishes `record just entered` from `next frame of the same record`', ok,
+               found=f'chosen from {sorted(reads & tuple_names)} only' if not state else f'reads {state}',
+               required='a choice that reads state assigned when the record is entered (seek / indirect-X read branch)', node=xbranch, module=m)
     gfe = ix.get_func(LP, 'LogPass._genFrameSetEvents')
     ys = [n for n in walk_no_nested(gfe) if isinstance(n, ast.Yield) and n.value is not None and _n(n.value).startswith('(EVENT_SEEK_LR')]
     ok = len(ys) == 1 and _n(ys[0].value) == '(EVENT_SEEK_LR,lrSeek,None,None,None)'
@@ -439,3 +475,4 @@ def run(rep, ix, tier):
     rep.floor('R-C06-CHANNELS', 8)
     rep.floor('R-C06-RC', 20)
     rep.floor('R-C06-LOCAL', 10)
+    rep.floor('R-C06-XBASE', 2)
